@@ -346,6 +346,12 @@ func handleMODE(c *Client, e Event) {
 			continue
 		}
 
+		// List modes (CHANMODES type A, e.g. a +q quiet list) take masks, not
+		// users; only PREFIX modes change a user's permissions.
+		if strings.IndexByte(channel.Modes.modesListArgs, modes[i].name) > -1 {
+			continue
+		}
+
 		user := c.state.lookupUser(modes[i].args)
 		if user != nil {
 			perms, _ := user.Perms.Lookup(channel.Name)
